@@ -387,7 +387,8 @@ def job_colr_ufo(jc):
                 leaves = [lf for layer in cg.painted_layers for lf in ps.denote(layer)]
             conj.append(box_contains(mine[0], leaves, ufo, factor))
         jc.prove(r, z3.And(*conj), "_colr_ufo: no paint => no clip box; each box contains its own glyph; step = config or round(2% upem)",
-                 {"order": order, "upem": upem, "quant": quant}, replay_colr_ufo, key="C05:colr_ufo:boxes", timeout_ms=60000)
+                 dict({"order": order, "upem": upem, "quant": quant}, **{n + str(i): core.SymNum(z3.Real(n + str(i))) for i in range(len(order)) for n in ("a", "b", "c", "d", "e", "f", "dx", "dy")}),
+                 replay_colr_ufo, key="C05:colr_ufo:boxes", timeout_ms=60000)
         jc.sample(order=order, boxes=[[n, [repr(v)[:40] for v in b][:1]] for n, b in boxes])
 
 
@@ -403,8 +404,9 @@ def replay_colr_ufo(inp):
     factor = quant if quant is not None else round(upem * 0.02)
     cgs = []
     for i, kind in enumerate(order):
-        layers = {"P": [P.PaintTransform(transform=(1.5, 0.25, -0.5, 2.0, 30.0 * (i + 1), -700.0), paint=P.PaintGlyph(glyph="square", paint=SOLID))],
-                  "Q": [P.PaintTranslate(dx=333.0 + i, dy=-41.0, paint=P.PaintGlyph(glyph="triangle", paint=SOLID))], "E": []}[kind]
+        v = lambda n, d: float(inp.get(n + str(i), d))  # the solver's witness; representative values where it left them free
+        layers = {"P": [P.PaintTransform(transform=(v("a", 1.5), v("b", 0.25), v("c", -0.5), v("d", 2.0), v("e", 30.0 * (i + 1)), v("f", -700.0)), paint=P.PaintGlyph(glyph="square", paint=SOLID))],
+                  "Q": [P.PaintTranslate(dx=v("dx", 333.0 + i), dy=v("dy", -41.0), paint=P.PaintGlyph(glyph="triangle", paint=SOLID))], "E": []}[kind]
         cgs.append(ColorGlyph(ufo, "", "", f"g{i}", 2 + i, (0x41 + i,), tuple(layers), None, Affine2D.identity(), None))
     saved = WF._migrate_paths_to_ufo_glyphs
     WF._migrate_paths_to_ufo_glyphs = lambda g, cache: g
